@@ -680,6 +680,15 @@ func (w *c05World) enabled(e c05Event) bool {
 		if w.last == nil {
 			return false
 		}
+		// an ARI-due cache copy (a certificate object of its own for the model) shares its hash with the stored
+		// certificate: if a failed forced renewal removes it and the stored certificate is loaded again while a pass
+		// that scanned the copy is still pending, that pass removes the re-loaded entry by hash — not expressible
+		// with the model's distinct identities; such a copy is never revoked
+		for _, al := range w.aliasOf {
+			if al == e.ID {
+				return false
+			}
+		}
 		for _, c := range w.last.Cache {
 			if c.ID == e.ID {
 				return !c.Expired
@@ -691,6 +700,17 @@ func (w *c05World) enabled(e c05Event) bool {
 		// a forced renewal waits for the name's lock, so none while a job holds it
 		if w.idue || w.last == nil {
 			return false
+		}
+		// two revoked certificates with the same first name: the pass (a loop over a Go map) may take a certificate
+		// of another name between them; the observed order is one of names (lock requests), which cannot say that
+		heads := map[int]bool{}
+		for _, c := range w.last.Cache {
+			if c.Man && c05Has(w.last.Rev, c.ID) {
+				if heads[c.Head] {
+					return false
+				}
+				heads[c.Head] = true
+			}
 		}
 		for _, c := range w.last.Cache {
 			if !c.Man || !c05Has(w.last.Rev, c.ID) {
